@@ -106,3 +106,113 @@ macro_rules! template1 {
 template1!(c06_tmpl_a_x, b"a?", 1, 6);
 template1!(c06_tmpl_struct_x, b"(?)", 1, 7);
 template1!(c06_tmpl_dict_val, b"a{s?}", 4, 9);
+
+// ---------------------------------------------------------------- formatting / equality across representations
+use core::fmt::Write as _;
+use std::cmp::Ordering;
+use std::hash::{Hash, Hasher};
+
+struct Sink {
+    buf: [u8; 16],
+    len: usize,
+}
+impl core::fmt::Write for Sink {
+    fn write_str(&mut self, s: &str) -> core::fmt::Result {
+        let b = s.as_bytes();
+        let mut i = 0;
+        while i < b.len() {
+            if self.len >= 16 {
+                return Err(core::fmt::Error);
+            }
+            self.buf[self.len] = b[i];
+            self.len += 1;
+            i += 1;
+        }
+        Ok(())
+    }
+}
+fn sink_is(s: &Sink, want: &[u8]) -> bool {
+    if s.len != want.len() {
+        return false;
+    }
+    let mut i = 0;
+    while i < want.len() {
+        if s.buf[i] != want[i] {
+            return false;
+        }
+        i += 1;
+    }
+    true
+}
+struct Fnv(u64);
+impl Hasher for Fnv {
+    fn finish(&self) -> u64 {
+        self.0
+    }
+    fn write(&mut self, bytes: &[u8]) {
+        let mut i = 0;
+        while i < bytes.len() {
+            self.0 = (self.0 ^ bytes[i] as u64).wrapping_mul(0x100000001b3);
+            i += 1;
+        }
+    }
+}
+fn fnv<T: Hash>(t: &T) -> u64 {
+    let mut h = Fnv(0xcbf29ce484222325);
+    t.hash(&mut h);
+    h.finish()
+}
+
+static ISY: Signature = Signature::static_structure(&[&Signature::I32, &Signature::Str, &Signature::U8]);
+static X_ISY_FIELDS: [&Signature; 2] = [&Signature::I64, &ISY];
+static YU: Signature = Signature::static_structure(&[&Signature::U8, &Signature::U32]);
+
+/// Symbolic choice from a catalogue of hand-built signatures (static representation): string form with and without
+/// outer parentheses, string_len, and comparison with the text.
+#[kani::proof]
+#[kani::unwind(18)]
+#[kani::stub(alloc::fmt::format, no_format)]
+fn c06_format_catalogue() {
+    let which: u8 = kani::any();
+    kani::assume(which < 5);
+    let (sig, full, bare): (Signature, &[u8], &[u8]) = match which {
+        0 => (Signature::U8, b"y", b"y"),
+        1 => (Signature::static_array(&Signature::U8), b"ay", b"ay"),
+        2 => (Signature::static_dict(&Signature::Str, &Signature::Variant), b"a{sv}", b"a{sv}"),
+        3 => (Signature::static_structure(&X_ISY_FIELDS), b"(x(isy))", b"x(isy)"),
+        _ => (Signature::static_array(&YU), b"a(yu)", b"a(yu)"),
+    };
+    let mut s1 = Sink { buf: [0; 16], len: 0 };
+    let r = write!(s1, "{}", sig);
+    assert!(r.is_ok() && sink_is(&s1, full), "Display does not reproduce the signature text");
+    let mut s2 = Sink { buf: [0; 16], len: 0 };
+    let r = sig.write_as_string_no_parens(&mut s2);
+    assert!(r.is_ok() && sink_is(&s2, bare), "string form without outer parentheses is wrong");
+    assert!(sig.string_len() == full.len(), "string_len differs from the text length");
+    kani::cover!(which == 3, "nested struct");
+    core::mem::forget(sig);
+}
+
+/// Equal signatures compare, order and hash equal regardless of representation (static refs vs boxed children).
+#[kani::proof]
+#[kani::unwind(6)]
+#[kani::stub(alloc::fmt::format, no_format)]
+fn c06_eq_across_representations() {
+    let which: u8 = kani::any();
+    kani::assume(which < 3);
+    let (a, b): (Signature, Signature) = match which {
+        0 => (Signature::static_array(&Signature::U8), Signature::array(Signature::U8)),
+        1 => (
+            Signature::static_dict(&Signature::Str, &Signature::Variant),
+            Signature::dict(Signature::Str, Signature::Variant),
+        ),
+        _ => (Signature::static_structure(&[&Signature::U8, &Signature::U32]), Signature::structure([Signature::U8, Signature::U32])),
+    };
+    assert!(a == b && b == a, "equal signatures in different representations compare unequal");
+    assert!(a.cmp(&b) == Ordering::Equal, "equal signatures in different representations order unequal");
+    assert!(fnv(&a) == fnv(&b), "equal signatures in different representations hash differently");
+    let c = Signature::static_array(&Signature::U16);
+    assert!((a == c) == (a.cmp(&c) == Ordering::Equal), "ordering inconsistent with equality");
+    kani::cover!(which == 2, "struct");
+    core::mem::forget((a, b, c));
+}
